@@ -160,7 +160,9 @@ Definition unwind_frame (u : unwinder) (c : cache) (a : faddr) (rg : regs) (m : 
         | (CbRule r, ef) =>
           let c2 := cache_insert c1 slot x (gen u) r in
           let '(o, rg') := exec r first rg m in mkout o rg' c2 ef
-        | (CbUncacheable ra rg', ef) => mkout (Ok (Some ra)) rg' c1 ef
+        | (CbUncacheable ra rg', ef) =>
+          (* a null return address ends the stack (fix for S15) *)
+          mkout (if ra =? 0 then Ok None else Ok (Some ra)) rg' c1 ef
         | (CbErr rg1, ef) =>
           let c2 := cache_insert c1 slot x (gen u) fallback in
           let '(o, rg') := exec fallback first rg1 m in mkout o rg' c2 ef
